@@ -139,3 +139,89 @@ def replay_keywords(payload):
                             return {'reproduced': True, 'source': src, 'call': f"put_slice('zz=9', {st}, {sp}, 'keywords')",
                                     'observed': f.src, 'expected': 'keywords == old[:start] + [zz=9] + old[stop:]'}
     return {'reproduced': False, 'candidates': n}
+
+
+def merge_specs(prop='C03'):
+    """astutil:merge_arglikes - the index space of the combined fields `_args` / `_bases`:
+        ensures  the result holds exactly the given positionals and keywords, each once, in the order of their source
+                 positions (lineno, col_offset); with no keywords (no positionals) it is the other list's content;
+                 neither input list is modified
+    Interpreted for every valid argument sequence up to length 4 in three layouts (one line; every argument on its own
+    line with falling columns; keywords on the first line and everything else on later lines at smaller columns) -
+    shape-enumerated."""
+    from pyvc.contract import Fragment
+    from pyvc.interp import Interp, IFunc, SObj
+
+    def run(ctx, case, loc, pre, label):
+        seq, layout = case['seq'], case['layout']
+        nodes = []
+        for i, k in enumerate(seq):
+            if layout == 'line':
+                pos = (1, 4 * i)
+            elif layout == 'falling':
+                pos = (1 + i, 40 - 4 * i)
+            else:
+                first_k = seq.index('K') if 'K' in seq else len(seq)
+                pos = (1, 10 + 4 * i) if i <= first_k else (1 + i, 2 + i)
+            nodes.append(SObj(f'{k}{i}', {}, kind=k, lineno=pos[0], col_offset=pos[1]))
+        exprs = [n for n in nodes if n._get('kind') != 'K']
+        kws = [n for n in nodes if n._get('kind') == 'K']
+        e0, k0 = list(exprs), list(kws)
+        it = Interp({})
+        f = IFunc(it, loc.node, None, 'merge_arglikes')
+        r = it.call(f, (exprs, kws))
+        ctx.notes['outcome'] = 'return'
+        ctx.prove(f'{pre}.source_order[{label}]', isinstance(r, list) and len(r) == len(nodes) and
+                  all(a is b for a, b in zip(r, nodes)), info=f'got {[x._name for x in r]} for {"".join(seq)} ({layout})')
+        ctx.prove(f'{pre}.inputs_unchanged[{label}]', len(exprs) == len(e0) and len(kws) == len(k0) and
+                  all(a is b for a, b in zip(exprs + kws, e0 + k0)))
+
+    def valid(seq):
+        seen = False
+        for k in seq:
+            if k == 'E' and seen:
+                return False
+            if k != 'E':
+                seen = True
+        return True
+    cases = [dict(seq=seq, layout=l) for n in range(0, 5) for seq in itertools.product('ESK', repeat=n) if valid(seq)
+             for l in ('line', 'falling', 'late')]
+    return [Fragment('astutil:merge_arglikes', prop, 'merge_arglikes', cases, run, min_obligations=2,
+                     native=('k_arglikes', 'replay_merge_arglikes'),
+                     notes='nodes are markers with (lineno, col_offset); sequences up to length 4 x 3 layouts')]
+
+
+def replay_merge_arglikes(payload):
+    """native: Call / ClassDef argument lists in several layouts: the merged list must be in source order"""
+    import ast
+    from fst.astutil import merge_arglikes
+    n = 0
+    names = 'abcd'
+    for ln in range(1, 5):
+        for seq in itertools.product('ESK', repeat=ln):
+            seen, ok = False, True
+            for k in seq:
+                if k == 'E' and seen:
+                    ok = False
+                if k != 'E':
+                    seen = True
+            if not ok:
+                continue
+            parts = [{'E': names[i], 'S': '*' + names[i], 'K': f'{names[i]}={i}'}[k] for i, k in enumerate(seq)]
+            for sep in (', ', ',\n   ', None):
+                if sep is None:
+                    src = 'call(' + ''.join(p + (',\n' + ' ' * (1 + (len(parts) - i)) if i < len(parts) - 1 else '')
+                                            for i, p in enumerate(parts)) + ')'
+                else:
+                    src = 'call(' + sep.join(parts) + ')'
+                try:
+                    c = ast.parse(src).body[0].value
+                except SyntaxError:
+                    continue
+                n += 1
+                got = merge_arglikes(c.args, c.keywords)
+                want = sorted(c.args + c.keywords, key=lambda a: (a.lineno, a.col_offset))
+                if [id(x) for x in got] != [id(x) for x in want]:
+                    return {'reproduced': True, 'source': src, 'call': 'merge_arglikes(call.args, call.keywords)',
+                            'observed': [ast.unparse(x) for x in got], 'expected': [ast.unparse(x) for x in want]}
+    return {'reproduced': False, 'candidates': n}
